@@ -236,6 +236,21 @@ func runC10(c *Ctx) {
 			if lf.cond {
 				q := ReachQ{Fn: undo, From: LocOf(restore), Sink: SinkIs(ss)}
 				c.Check(q.Run().Found, fmt.Sprintf("%s#restored-before-write#%d", name, i+1), restore.Pos(), "the restore precedes the state write", fmt.Sprintf("snapst.%s is restored after the state write", lf.field))
+				// the restore may be skipped only for a non-revert task that does not carry the key
+				// (written by an older snapd): !snapsup.Revert and t.Get(key) failing
+				var getCall ssa.CallInstruction
+				for _, gc := range CallSites(undo, taskGet) {
+					if k, ok := ConstString(CallArgs(gc)[0]); ok && k == lf.key {
+						getCall = gc
+					}
+				}
+				fRev := P.Field(pkg + ".Flags.Revert")
+				notRevertU := Atom{Name: "!snapsup.Revert", Match: func(cd Cond) Pol { return cd.BoolIs(VField(fRev)).Flip() }}
+				getFailed := Not(ErrNil("t.Get("+lf.key+")==nil", VCellAll(func(v ssa.Value) bool {
+					cc, ok := v.(*ssa.Call)
+					return ok && ssa.CallInstruction(cc) == getCall
+				})))
+				c.Guarded(fmt.Sprintf("%s#restore-skipped-only-without-key#%d", name, i+1), undo, ss, []Clause{{notRevertU}, {getFailed}}, &GOpt{CutInstr: SinkIs(restore)})
 			} else {
 				c.Before(fmt.Sprintf("%s#restored-before-write#%d", name, i+1), undo, SinkIs(restore), fmt.Sprintf("snapst.%s = %s", lf.field, lf.key), ss, nil)
 			}
